@@ -464,8 +464,10 @@ def interp_function(st, xp, fp):
         def ex(v):
             k = seg(v)
             inside = band(compare('>=', v, pf((0,))), compare('<=', v, pf((nm1,))))
-            return implies(band(inside, compare('>=', n, 2)), band(band(compare('<=', 0, k), compare('<', k, nm1)),
-                                                                  band(compare('<=', pf((k,)), v), compare('<=', v, pf((arith('+', k, 1),))))))
+            y0, y1 = ff((k,)), ff((arith('+', k, 1),))
+            between = band(compare('>=', f(v), smin(y0, y1)), compare('<=', f(v), smax(y0, y1)))      # a chord lies between its end values
+            return implies(band(inside, compare('>=', n, 2)), band(band(band(compare('<=', 0, k), compare('<', k, nm1)),
+                                                                       band(compare('<=', pf((k,)), v), compare('<=', v, pf((arith('+', k, 1),))))), between))
         fb = Forall(['real'], ex, name='np.interp.bracket')
         fb.extra_pos = [{(F.name(), 0)}]        # trigger: wherever the interpolant is applied
         st.assume(fb)
@@ -540,6 +542,24 @@ def call_interp1d(interp, st, fr, f, args, kw):
     ys, yf, _ = npm.info(st, f.y)
     n = xs[0]
     nm1 = arith('-', n, 1)
+    if len(ys) == 1:
+        # a single curve: the named interpolant of the table; outside the table an exception (bounds_error) or the
+        # fill value -- modelled as an unspecified number when it is not a number of the reals (nan)
+        F = interp_function(st, f.x, f.y)
+        qs, qf, _ = npm.info(st, xn)
+        if len(qs) != 1:
+            raise Unsupported("interp1d called with a non 1-d argument")
+        inside = lambda v: band(compare('>=', v, xf((0,))), compare('<=', v, xf((nm1,))))
+        if f.bounds_error:
+            st.oblige('call.interp1d/pre.inside_table', Forall([qs[0]], lambda q: inside(qf((q,))), name='inside'), kind='pre')
+            return PureArr((qs[0],), lambda idx: F(qf((idx[0],))), 'real')
+        fill = f.fill_value
+        if not isinstance(fill, (int, Sc)) or isinstance(fill, bool):
+            U_ = z3.Function(fresh_name('fill'), z3.RealSort(), z3.RealSort())
+            fillv = lambda v: Sc(U_(to_z3(v, 'real')))
+        else:
+            fillv = lambda v: fill
+        return PureArr((qs[0],), lambda idx: ite(inside(qf((idx[0],))), F(qf((idx[0],))), fillv(qf((idx[0],)))), 'real')
     if len(ys) != 2:
         raise Unsupported("interp1d over a table of rank %d" % len(ys))
     G = row_interpolant(st, f.x, f.y)
